@@ -39,7 +39,7 @@
     witnesses are replayed on sqlgen. *)
 From Coq Require Import List String Bool ZArith.
 From Coq Require Import Permutation.
-From Thunder Require Import Sql.Model Sql.ModelExact Sql.BatchProofs Sql.BatchExact Sql.ModelCheck Sql.GroupOrder.
+From Thunder Require Import Sql.Model Sql.ModelExact Sql.BatchProofs Sql.BatchExact Sql.ModelCheck Sql.GroupOrder Sql.Matcher Sql.MatcherProofs.
 Import ListNotations.
 Open Scope string_scope.
 
@@ -213,6 +213,39 @@ Theorem c10_one_group_per_shape :
 Proof. exact batch_groups_bound. Qed.
 Print Assumptions c10_one_group_per_shape.
 
+(** * The matcher as the code computes it (sqlgen/matcher.go, internal.MakeHashable, the dispatch loop of db.go)
+
+    [matcher_matches] above is the specification: caller f is handed row r iff the coerced, hashed values agree
+    on every column of f.  Sql/Matcher.v follows the code: groups keyed by the joined column names, inside a
+    group a map from the hashed value tuple to the set of query ids, [add] per item, [match] per fetched row,
+    one append per id returned.  The data structures compute exactly the specification, for every set of callers
+    (keys that collide, equal filters, tuples that are == across Go types or not ...) -- the evaluator of the
+    correspondence runs the data-structure model on every batch. *)
+Theorem c10_matcher_data_structures_compute_the_matcher :
+  forall t fs rows,
+    table_ok t = true -> cols_distinct t = true -> forallb (filter_known t) fs = true ->
+    dispatch t fs rows = map (fun f => List.filter (matcher_matches t f) rows) fs.
+Proof. exact dispatch_refines. Qed.
+Print Assumptions c10_matcher_data_structures_compute_the_matcher.
+
+Theorem c10_batch_function_through_the_matcher :
+  forall t fs contents,
+    table_ok t = true -> cols_distinct t = true -> forallb (filter_known t) fs = true ->
+    batched_results_struct false t fs contents = batched_results t fs contents
+    /\ batched_results_struct true t fs contents = batched_results_fixed t fs contents.
+Proof. exact batched_results_struct_both. Qed.
+Print Assumptions c10_batch_function_through_the_matcher.
+
+(** matcher.remove undoes matcher.add (what a fetcher that recycles its matcher relies on; the tuple must be
+    equal to itself as a map key). *)
+Theorem c10_matcher_remove_undoes_add :
+  forall m id f,
+    mfull m -> mbound id m ->
+    tuple_eqb (m_tuple f (extract_columns f)) (m_tuple f (extract_columns f)) = true ->
+    matcher_remove (matcher_add m id f) id f = m.
+Proof. exact matcher_remove_add. Qed.
+Print Assumptions c10_matcher_remove_undoes_add.
+
 (** The order in which makeBatchQuery ORs its groups is irrelevant to what is fetched; the evaluator of the
     correspondence therefore accepts the combined statement with its groups in any order -- and nothing else:
     what it accepts is the statement of a permutation of the model's groups. *)
@@ -260,8 +293,8 @@ Example ex_hypotheses_hold :
 Proof. repeat split; reflexivity. Qed.
 
 (** The exact hypothesis: F18's filter is outside it and [witness_rows] separates it; a filter that is not
-    exactly typed can be inside (a pointer to "" on the implicitnull column selects nothing and int(3) is
-    never matched: no rows either way). *)
+    exactly typed can be inside (a pointer to "" on the implicitnull column means IS NULL since 3e2535a, and the
+    matcher compares the "" it points to with the "" a NULL scans into). *)
 Definition ex_items : table :=
   mk_table "items" false
     [mk_col "id" true false (TyInt KI64 ""); mk_col "note" false true (TyStr ""); mk_col "data" false false TyBytes].
@@ -296,8 +329,10 @@ Example ex_repaired :
 Proof. repeat split; vm_compute; reflexivity. Qed.
 
 Example ex_transparent_not_exactly_typed :
-  filter_exactly_typed ex_items [("id", GInt KI "" 3%Z); ("note", GPtr 1 (GStr "" ""))] = false
-  /\ filter_transparent ex_items [("id", GInt KI "" 3%Z); ("note", GPtr 1 (GStr "" ""))] = true
+  filter_exactly_typed ex_items [("note", GPtr 1 (GStr "" ""))] = false
+  /\ filter_transparent ex_items [("note", GPtr 1 (GStr "" ""))] = true
+  /\ filter_exactly_typed ex_items [("id", GCustom "Shifted" (GInt KI64 "" 9223372036854775807%Z) (DInt 9223372036854775808%Z)); ("data", GStr "" "a")] = false
+  /\ filter_transparent ex_items [("id", GCustom "Shifted" (GInt KI64 "" 9223372036854775807%Z) (DInt 9223372036854775808%Z)); ("data", GStr "" "a")] = true
   /\ table_ok ex_items = true /\ columns_ok ex_items = true /\ cols_distinct ex_items = true.
 Proof. repeat split; reflexivity. Qed.
 
@@ -309,6 +344,14 @@ Example ex_batched_rows :
      [[("id", DInt 10%Z); ("name", DStr "bob"); ("nick", DNull)]];
      [[("id", DInt 20%Z); ("name", DStr "al"); ("nick", DStr "a")]]].
 Proof. vm_compute. reflexivity. Qed.
+
+Example ex_matcher :
+  matcher_of [[("id", GInt KI64 "" 10%Z)]; [("nick", GNil)]; [("id", GPtr 1 (GInt KI64 "" 10%Z))]; [("id", GInt KI "" 10%Z)]]
+  = [("id", mk_mgroup ["id"] [([GInt KI64 "" 10%Z], [0; 2]); ([GInt KI "" 10%Z], [3])]);
+     ("nick", mk_mgroup ["nick"] [([GNil], [1])])]
+  /\ matcher_match (matcher_of [[("id", GInt KI64 "" 10%Z)]; [("nick", GNil)]; [("id", GPtr 1 (GInt KI64 "" 10%Z))]; [("id", GInt KI "" 10%Z)]])
+       (coerce_map (extract_row w_users [("id", DInt 10%Z); ("name", DStr "bob"); ("nick", DNull)])) = [0; 2; 1].
+Proof. split; vm_compute; reflexivity. Qed.
 
 Example ex_group_order :
   batch_stmt_matches "users" ["id"; "name"; "nick"]
